@@ -1,5 +1,5 @@
 (* C10 — soundness of the may-alias analysis of C10_Model w.r.t. the heap semantics. *)
-From Coq Require Import List Arith Bool Lia.
+From Coq Require Import List Arith NArith Bool Lia.
 From PV Require Import C10_Model.
 Import ListNotations.
 
@@ -18,6 +18,20 @@ Proof.
   - intros H. destruct (mem b l) eqn:E; [|reflexivity]. apply mem_In in E. contradiction.
 Qed.
 
+Lemma memv_In x l : memv x l = true <-> In x l.
+Proof.
+  unfold memv. rewrite existsb_exists. split.
+  - intros [y [Hy He]]. apply N.eqb_eq in He. subst. exact Hy.
+  - intros H. exists x. split; [exact H|apply N.eqb_refl].
+Qed.
+
+Lemma memv_false_In x l : memv x l = false <-> ~ In x l.
+Proof.
+  split.
+  - intros H Hin. apply memv_In in Hin. congruence.
+  - intros H. destruct (memv x l) eqn:E; [|reflexivity]. apply memv_In in E. contradiction.
+Qed.
+
 Definition ale (a b : astate) : Prop := forall x, aget a x = true -> aget b x = true.
 
 Lemma ale_refl a : ale a a.
@@ -28,15 +42,15 @@ Proof. intros H1 H2 x H. apply H2, H1, H. Qed.
 Lemma aget_ajoin a b x : aget (ajoin a b) x = aget a x || aget b x.
 Proof.
   unfold aget, ajoin.
-  destruct (mem x a) eqn:Ea; cbn.
-  - apply mem_In. apply in_or_app. left. apply mem_In. exact Ea.
-  - destruct (mem x b) eqn:Eb.
-    + apply mem_In. apply in_or_app. right. apply filter_In. split.
-      * apply mem_In. exact Eb.
+  destruct (memv x a) eqn:Ea; cbn.
+  - apply memv_In. apply in_or_app. left. apply memv_In. exact Ea.
+  - destruct (memv x b) eqn:Eb.
+    + apply memv_In. apply in_or_app. right. apply filter_In. split.
+      * apply memv_In. exact Eb.
       * rewrite Ea. reflexivity.
-    + apply mem_false_In. intros H. apply in_app_or in H. destruct H as [H|H].
-      * apply mem_In in H. congruence.
-      * apply filter_In in H. destruct H as [H _]. apply mem_In in H. congruence.
+    + apply memv_false_In. intros H. apply in_app_or in H. destruct H as [H|H].
+      * apply memv_In in H. congruence.
+      * apply filter_In in H. destruct H as [H _]. apply memv_In in H. congruence.
 Qed.
 
 Lemma ale_join_l a b : ale a (ajoin a b).
@@ -54,21 +68,41 @@ Proof. intros x H. discriminate H. Qed.
 Lemma aleb_ale a b : aleb a b = true -> ale a b.
 Proof.
   unfold aleb, ale, aget. intros H x Hx. rewrite forallb_forall in H.
-  apply H. apply mem_In. exact Hx.
+  apply H. apply memv_In. exact Hx.
 Qed.
 
-Lemma aget_aset a x t y : aget (aset a x t) y = if Nat.eqb y x then t else aget a y.
+Lemma aget_aset a x t y : aget (aset a x t) y = if N.eqb y x then t else aget a y.
 Proof.
   unfold aget, aset. destruct t.
-  - cbn. destruct (Nat.eqb y x); reflexivity.
-  - destruct (Nat.eqb y x) eqn:E.
-    + apply mem_false_In. intros H. apply filter_In in H. destruct H as [_ H].
+  - cbn. destruct (N.eqb y x); reflexivity.
+  - destruct (N.eqb y x) eqn:E.
+    + apply memv_false_In. intros H. apply filter_In in H. destruct H as [_ H].
       rewrite E in H. discriminate H.
-    + destruct (mem y a) eqn:Ea.
-      * apply mem_In. apply filter_In. split; [apply mem_In; exact Ea|].
+    + destruct (memv y a) eqn:Ea.
+      * apply memv_In. apply filter_In. split; [apply memv_In; exact Ea|].
         rewrite E. reflexivity.
-      * apply mem_false_In. intros H. apply filter_In in H. destruct H as [H _].
-        apply mem_In in H. congruence.
+      * apply memv_false_In. intros H. apply filter_In in H. destruct H as [H _].
+        apply memv_In in H. congruence.
+Qed.
+
+Lemma aget_cons x a y : aget (x :: a) y = N.eqb y x || aget a y.
+Proof. reflexivity. Qed.
+
+Lemma ale_cons x a : ale a (x :: a).
+Proof. intros y H. rewrite aget_cons, H. apply orb_true_r. Qed.
+
+Lemma ale_set_norm_acc A x t : ale (a_acc A) (a_acc (set_norm A x t)).
+Proof. unfold set_norm; cbn. destruct t; [apply ale_cons|apply ale_refl]. Qed.
+
+Lemma ale_set_norm_wf A x t : ale (a_norm A) (a_acc A) -> ale (a_norm (set_norm A x t)) (a_acc (set_norm A x t)).
+Proof.
+  intros Hw y H. unfold set_norm in H; cbn [a_norm] in H. rewrite aget_aset in H.
+  unfold set_norm; cbn [a_acc].
+  destruct (N.eqb y x) eqn:E.
+  - subst t. rewrite aget_cons, E. reflexivity.
+  - destruct t.
+    + rewrite aget_cons, E. cbn. apply Hw. exact H.
+    + apply Hw. exact H.
 Qed.
 
 (* ---------------- loop iteration ---------------- *)
@@ -120,7 +154,7 @@ Lemma R_assign a c x v t h n :
 Proof.
   intros [H1 H2] Hv Hn. split; cbn; [|exact Hn].
   intros y Hy. rewrite aget_aset. unfold upd in Hy.
-  destruct (Nat.eqb y x); auto.
+  destruct (N.eqb y x); auto.
 Qed.
 
 Lemma touches_app l1 l2 : touches (l1 ++ l2) = touches l1 || touches l2.
@@ -257,16 +291,18 @@ Qed.
 Lemma sound_assign x e : sound (Assign x e).
 Proof.
   intros fuel A A' Hw H. cbn in H. injection H as <-. split.
-  - unfold mono, wfA, set_norm; cbn. repeat split; auto using ale_refl, ale_join_l, ale_join_r.
+  - unfold mono, wfA. repeat split; auto using ale_refl, ale_set_norm_acc.
+    apply ale_set_norm_wf. exact Hw.
   - intros c o c' HR Hx. inversion Hx; subst.
-    + exn A Hw HR. apply ale_join_l.
+    + exn A Hw HR. destruct (aeval (a_norm A) e); [apply ale_cons|apply ale_refl].
     + match goal with He : eval _ _ _ _ |- _ =>
         destruct (eval_sound _ _ _ _ _ HR He) as [Hv [Hn Hle]] end.
       split; [intros b _; reflexivity|].
       assert (R (aset (a_norm A) x (aeval (a_norm A) e))
                 {| st := upd (st c) x v; ver := ver c; next := n |}) as HR'
           by (apply R_assign; auto).
-      split; [|exact HR']. eapply R_le; [|exact HR']. cbn. apply ale_join_r.
+      split; [|exact HR']. eapply R_le; [|exact HR'].
+      apply (ale_set_norm_wf A x (aeval (a_norm A) e)). exact Hw.
 Qed.
 
 Lemma sound_inplace x : sound (InPlace x).
@@ -291,9 +327,10 @@ Proof.
   intros fuel A A' Hw H. cbn in H.
   destruct (existsb (aget (a_norm A)) muts) eqn:Em; [discriminate H|]. injection H as <-.
   split.
-  - unfold mono, wfA, set_norm; cbn. repeat split; auto using ale_refl, ale_join_l, ale_join_r.
+  - unfold mono, wfA. repeat split; auto using ale_refl, ale_set_norm_acc.
+    apply ale_set_norm_wf. exact Hw.
   - intros c o c' HR Hx. inversion Hx; subst.
-    + exn A Hw HR. apply ale_join_l.
+    + exn A Hw HR. destruct (existsb (aget (a_norm A)) als); [apply ale_cons|apply ale_refl].
     + assert (touches (reach c muts) = false) as Ht.
       { destruct (touches (reach c muts)) eqn:T; [|reflexivity].
         apply (reach_tainted _ _ _ HR) in T. congruence. }
@@ -311,7 +348,8 @@ Proof.
             + eapply reach_tainted; [exact HR|].
               unfold touches. apply existsb_exists. exists b. split; assumption.
           - intros b Hb. destruct HR as [_ H2]. apply H2 in Hb. lia. }
-        split; [|exact HR']. eapply R_le; [|exact HR']. cbn. apply ale_join_r.
+        split; [|exact HR']. eapply R_le; [|exact HR'].
+        apply (ale_set_norm_wf A x (existsb (aget (a_norm A)) als)). exact Hw.
 Qed.
 
 Lemma sound_if s1 s2 : sound s1 -> sound s2 -> sound (If s1 s2).
@@ -556,8 +594,8 @@ Lemma entry_R params c :
 Proof.
   intros [H1 H2]. split.
   - intros x T. unfold touches in T. apply existsb_exists in T. destruct T as [b [Hb Pb]].
-    apply mem_In in Pb. unfold aget. apply mem_In.
-    destruct (in_dec Nat.eq_dec x params) as [Hi|Hn]; [exact Hi|].
+    apply mem_In in Pb. unfold aget. apply memv_In.
+    destruct (in_dec N.eq_dec x params) as [Hi|Hn]; [exact Hi|].
     exfalso. exact (H1 _ Hn _ Hb Pb).
   - intros b Pb. apply mem_In in Pb. apply H2. exact Pb.
 Qed.
@@ -588,10 +626,10 @@ Qed.
 (* ---------------- the semantics is not vacuous ----------------
    a write through a view of a parameter does change the parameter's buffer *)
 Definition c_entry : cstate :=
-  {| st := fun x => if Nat.eqb x 0 then [0] else []; ver := fun _ => 0; next := 1 |}.
+  {| st := fun x => if N.eqb x 0 then [0] else []; ver := fun _ => 0; next := 1 |}.
 
 Lemma view_write_changes :
-  exists c', exec c_entry (Seq (Assign 1 (EView 0)) (InPlace 1)) ONorm c' /\
+  exists c', exec c_entry (Seq (Assign 1%N (EView 0%N)) (InPlace 1%N)) ONorm c' /\
              ver c' 0 <> ver c_entry 0.
 Proof.
   eexists. split.
@@ -599,35 +637,45 @@ Proof.
   - cbn. discriminate.
 Qed.
 
-Lemma entry_ok_c_entry : entry_ok [0] c_entry.
+Lemma entry_ok_c_entry : entry_ok [0%N] c_entry.
 Proof.
   split.
-  - intros x Hx b Hb. cbn in Hb. destruct x; [exfalso; apply Hx; left; reflexivity|].
-    cbn in Hb. destruct Hb.
+  - intros x Hx b Hb. cbn in Hb. destruct (N.eqb x 0) eqn:E.
+    + apply N.eqb_eq in E. exfalso. apply Hx. left. symmetry. exact E.
+    + destruct Hb.
   - intros b Hb. cbn in Hb. destruct Hb as [<-|[]]. cbn. lia.
 Qed.
 
 (* the write of ProfileBase._compute_mask on the unrepaired code:  mask |= badmask *)
 Definition compute_mask_defect : stmt :=
-  Seq (Assign 3 EFresh)                             (* badmask = ~np.isfinite(data) *)
-  (Seq (If (InPlace 3) Skip)                        (* badmask |= ~np.isfinite(error) *)
-  (Seq (If (Seq (InPlace 3) (InPlace 2))            (* badmask &= ~mask; mask |= badmask *)
-           (Assign 2 (EView 3)))                    (* mask = badmask *)
-       (Return (EView 2)))).
+  Seq (Assign 3%N EFresh)                           (* badmask = ~np.isfinite(data) *)
+  (Seq (If (InPlace 3%N) Skip)                      (* badmask |= ~np.isfinite(error) *)
+  (Seq (If (Seq (InPlace 3%N) (InPlace 2%N))        (* badmask &= ~mask; mask |= badmask *)
+           (Assign 2%N (EView 3%N)))                (* mask = badmask *)
+       (Return (EView 2%N)))).
+
+Definition c_three : cstate :=
+  {| st := fun x => if N.eqb x 0 then [0] else if N.eqb x 1 then [1] else if N.eqb x 2 then [2] else [];
+     ver := fun _ => 0; next := 3 |}.
+
+Lemma entry_ok_c_three : entry_ok [0%N; 1%N; 2%N] c_three.
+Proof.
+  split.
+  - intros x Hx b Hb. cbn in Hb.
+    destruct (N.eqb x 0) eqn:E0; [apply N.eqb_eq in E0; exfalso; apply Hx; cbn; auto|].
+    destruct (N.eqb x 1) eqn:E1; [apply N.eqb_eq in E1; exfalso; apply Hx; cbn; auto|].
+    destruct (N.eqb x 2) eqn:E2; [apply N.eqb_eq in E2; exfalso; apply Hx; cbn; auto|].
+    destruct Hb.
+  - intros b Hb. cbn in Hb. cbn. lia.
+Qed.
 
 Lemma compute_mask_defect_refuted :
-  accepts [0; 1; 2] compute_mask_defect = false /\
-  exists c c' v, entry_ok [0; 1; 2] c /\ exec c compute_mask_defect (ORet v) c' /\
-                 exists b, In b (st c 2) /\ ver c' b <> ver c b.
+  accepts [0%N; 1%N; 2%N] compute_mask_defect = false /\
+  exists c c' v, entry_ok [0%N; 1%N; 2%N] c /\ exec c compute_mask_defect (ORet v) c' /\
+                 exists b, In b (st c 2%N) /\ ver c' b <> ver c b.
 Proof.
   split; [vm_compute; reflexivity|].
-  exists {| st := fun x => match x with 0 => [0] | 1 => [1] | 2 => [2] | _ => [] end;
-            ver := fun _ => 0; next := 3 |}.
-  eexists. eexists. split; [|split].
-  - split.
-    + intros x Hx b Hb. destruct x as [|[|[|x]]]; cbn in Hb;
-        try (exfalso; apply Hx; cbn; tauto); destruct Hb.
-    + intros b Hb. cbn in Hb. cbn. lia.
+  exists c_three. eexists. eexists. split; [exact entry_ok_c_three|split].
   - eapply XSeqN; [apply XAssign; apply EvFresh|].
     eapply XSeqN; [apply XIfR; apply XSkip|].
     eapply XSeqN; [apply XIfL; eapply XSeqN; [apply XInPlace|apply XInPlace]|].
@@ -637,13 +685,13 @@ Qed.
 
 (* the repaired code: mask = mask | badmask *)
 Definition compute_mask_fixed : stmt :=
-  Seq (Assign 3 EFresh)
-  (Seq (If (InPlace 3) Skip)
-  (Seq (If (Seq (InPlace 3) (Assign 2 EFresh))
-           (Assign 2 (EView 3)))
-       (Return (EView 2)))).
+  Seq (Assign 3%N EFresh)
+  (Seq (If (InPlace 3%N) Skip)
+  (Seq (If (Seq (InPlace 3%N) (Assign 2%N EFresh))
+           (Assign 2%N (EView 3%N)))
+       (Return (EView 2%N)))).
 
 Lemma compute_mask_fixed_accepted :
-  accepts [0; 1; 2] compute_mask_fixed = true /\
-  ret_may_alias [0; 1; 2] compute_mask_fixed = Some false.
+  accepts [0%N; 1%N; 2%N] compute_mask_fixed = true /\
+  ret_may_alias [0%N; 1%N; 2%N] compute_mask_fixed = Some false.
 Proof. vm_compute. split; reflexivity. Qed.
